@@ -275,6 +275,42 @@ def load_corpus(prop):
     return out
 
 
+def deleted_space_held_uncached(ops, uncached_names=()):
+    """does the history delete a space (or a space above it) that at that moment has an uncached cells -
+    flagged by a `set_cached .. 0` op of the history, or of a name in `uncached_names` (C09's assignment)?
+    (the trigger of the known finding *-deleted-space-uncached-cells; read off the operations alone)"""
+    cells, bases, unc = {}, {}, set()
+
+    def visible(path, seen=()):
+        out = {(path, n) for n in cells.get(path, ())}
+        for b in bases.get(path, ()):
+            if b not in seen:
+                out |= visible(b, seen + (path,))
+        return out
+    for op in ops:
+        k = op[0]
+        if k == "new_space":
+            path = op[2] if op[1] == "-" else op[1] + "." + op[2]
+            cells.setdefault(path, set())
+            bases[path] = list(op[3] or [])
+        elif k == "add_bases":
+            bases.setdefault(op[1], []).extend(op[2])
+        elif k in ("new_cells", "set_formula"):
+            cells.setdefault(op[1], set()).add(op[2])
+        elif k == "rename_cells":
+            cells.setdefault(op[1], set()).add(op[3])
+        elif k == "set_cached":
+            (unc.discard if op[3] else unc.add)((op[1], op[2]))
+            cells.setdefault(op[1], set()).add(op[2])
+        elif k == "del_space":
+            for path in list(cells):
+                if path == op[1] or path.startswith(op[1] + "."):
+                    for (dp, n) in visible(path):
+                        if (dp, n) in unc or (path, n) in unc or n in uncached_names:
+                            return True
+    return False
+
+
 def merge(out, sub):
     out.failures += sub.failures
     out.disagreements += sub.disagreements
